@@ -239,6 +239,45 @@ impl Property for C11 {
                 ));
             }
         }
+        // a third driver of the public API: lines are fed with update only (as the batch executor does), the table is asked for
+        // in the middle, at the end, and once more at the end - asking for the table does not change what the next table shows
+        if aggregate && case.long.is_none() && case.joined.is_none() && !lines.is_empty() {
+            if let Ok(Ok(mut engine)) = crate::run::catch(|| ExecutionEngine::with_executed_joined_table(&p.tables, &p.statement)) {
+                let mid = lines.len() / 2;
+                let mut snapshots: Vec<(usize, Vec<String>)> = Vec::new();
+                let mut failed = false;
+                for (k, line) in lines.iter().enumerate() {
+                    if engine_line(&mut engine, line, &ExecutionConfig::aggregate_update()).map_err(panic_fail)?.is_err() {
+                        failed = true;
+                        break;
+                    }
+                    let asks = if k + 1 == lines.len() { 2 } else if k + 1 == mid { 1 } else { 0 };
+                    for _ in 0..asks {
+                        match engine_line(&mut engine, "", &ExecutionConfig::aggregate_result()).map_err(panic_fail)? {
+                            Ok(lo) => snapshots.push((k + 1, lo.result.as_ref().map(|rr| print_rows(rr).into_iter().filter(|l| !l.is_empty()).collect()).unwrap_or_default())),
+                            Err(_) => {
+                                failed = true;
+                                break;
+                            }
+                        }
+                    }
+                    if failed {
+                        break;
+                    }
+                }
+                if !failed {
+                    for (k, shown) in snapshots {
+                        let batch = batch_of(k)?;
+                        if batch.result.is_ok() && shown != batch.records() {
+                            return Err(Failure::new(
+                                format!("snapshot-differs: {}", kind),
+                                format!("lines fed with update only, the table asked for after line {} (also in the middle and twice at the end) is {:?}\n  the batch run over the first {} lines prints {:?}\n  {}", k, shown, k, batch.records(), context),
+                            ));
+                        }
+                    }
+                }
+            }
+        }
         // the real FollowFileExecutor (own process; refreshes are delimited by the clear-screen sequence)
         if case.follow {
             obs.label("follow-executor");
